@@ -267,11 +267,13 @@ def record(src):
             else:
                 cols = [[tri(mtt[o][ri]) for o in range(m)] for ri in range(2 ** n)]
 
+                stored = (n + sum(sum(row) for row in mtt)) % 3 == 0   # the callable hands out its own stored rows
+
                 def lookup(args):
                     idx = 0
                     for a in args:
                         idx = idx * 2 + (1 if a else 0)
-                    return list(cols[idx])
+                    return cols[idx] if stored else list(cols[idx])
 
                 if n == 2 and (m + sum(sum(row) for row in mtt)) % 2:
                     model = PyFunctionModel.from_positional(lambda a, b: lookup([a, b]))
@@ -279,12 +281,17 @@ def record(src):
                     model = PyFunctionModel.from_positional(lambda a, b, c: lookup([a, b, c]))
                 else:
                     model = PyFunctionModel(lookup, input_size=n)
+            definition = {(tuple(rows[d['r']]), d['o'] - 1): bool(d['v']) for d in defs}
+            if src['rep'] == 'PyFunctionModel' and (m + n) % 2 == 0:
+                # completion first, the model's own answers afterwards: completing must not change the model
+                fn = model.define(definition)
+                case['res'] = _rowsets([list(fn.evaluate(list(x))) for x in rows], m)
             case['chk'] = [[code(model.check(list(x))[o]) for x in rows] for o in range(m)]
             case['chk_at'] = [[code(model.check_at(list(x), o)) for x in rows] for o in range(m)]
             case['gmtt'] = [[code(v) for v in row] for row in model.get_model_truth_table()]
-            definition = {(tuple(rows[d['r']]), d['o'] - 1): bool(d['v']) for d in defs}
-            fn = model.define(definition)
-            case['res'] = _rowsets([list(fn.evaluate(list(x))) for x in rows], m)
+            if not case['res']:
+                fn = model.define(definition)
+                case['res'] = _rowsets([list(fn.evaluate(list(x))) for x in rows], m)
         except Exception as e:
             case['exc'] = type(e).__name__
         return case
